@@ -1,7 +1,7 @@
 (* C14, histories on long-lived Characteristic objects: a prepared value depends
    only on the metadata in force. *)
 From Coq Require Import List NArith ZArith Bool Lia.
-From AHK Require Import Lib.Res Model.Convert Model.ConvertHist Proofs.ConvertInt.
+From AHK Require Import Lib.Res Model.Convert Model.ConvertHist Proofs.ConvertInt Proofs.ConvertBound.
 Import ListNotations.
 
 Lemma lookup_limits : forall k s,
@@ -119,7 +119,7 @@ Proof.
   intros aid l. induction p as [|[k e] rest IH]; intro Hk.
   - left. eexists. reflexivity.
   - simpl. destruct (lim_lookup k l) as [[i a]|] eqn:L; [|exfalso; apply (Hk k e); [left; reflexivity|exact L]].
-    destruct (convert_total_lemma (a_fmt a) (a_min a) (a_max a) (a_step a) (fst e) (snd e)) as [[v Hv]|He];
+    destruct (convertb_total_lemma (a_fmt a) (a_min a) (a_max a) (a_step a) (fst e) (snd e)) as [[v Hv]|He];
       unfold convert_for.
     + rewrite Hv. simpl. destruct (IH (fun k' e' H => Hk k' e' (or_intror H))) as [[r Hr]|Hr]; rewrite Hr; simpl.
       * left. eexists. reflexivity.
